@@ -97,7 +97,7 @@ def run(tier):
             e = t["ev"][l - 1]
             own = clause.startswith("C12:") or clause.startswith("C05:")
             if own:
-                V.violation(f"{PID}|trace|{clause}|P={'ge195' if e['psll'] >= 195 else 'lt195'}|L={'lt80' if e['L'] < 80 else ('ge65536' if e['L'] >= 65536 else '80to65535')}",
+                V.violation(f"{PID}|trace|{clause}|P={'ge155' if e['psll'] >= 155 else 'lt155'}|L={'le101' if e['L'] <= 101 else ('ge65536' if e['L'] >= 65536 else '102to65535')}",
                             {"kind": "kaiser_trace", "spec": t["meta"], "event": l, "message": f"KaiserTrace rejected {e}: {clause}"})
     V.set("leakage_measurements", nleak)
     V.set("worst_relative_response_centi_dB_by_psll", worst)
